@@ -1,4 +1,5 @@
 import Sourmash.Lemmas.SeqTables
+import Sourmash.Lemmas.SeqRevcomp
 /-! Property C02 — sequence k-mers hash to the documented canonical values in every mode.
 Property theorems only; helper lemmas live in `Sourmash/Lemmas/Seq*.lean`.
 
@@ -46,5 +47,107 @@ theorem valid_table (b : UInt8) : valid b = Kmers.isACGT b := Tables.valid_eq b
 
 /-- hence `revcomp` is the reverse complement of the specification -/
 theorem revcomp_spec (s : List UInt8) : revcomp s = Kmers.revcomp s := Tables.revcomp_eq s
+
+/-! ## DNA sketches, DNA input -/
+
+/-- T-dna_stream.  For every byte sequence, every k ≥ 1, seed and force flag, the items that
+    iterating `SeqToHashes.next` yields — up to the end, or up to and including the first error —
+    are exactly the specification's list: per length-k window of the upper-cased sequence, left to
+    right, `murmur(min(w, revcomp w), seed)` if all its bases are ACGT, otherwise the skip marker
+    (`Ok(0)`) when forcing and `Err(InvalidDNA)` — and nothing after it — when not.
+    (Invariant behind it, `Seq.next_dna_some`: every position in `[kmer_index,
+    dna_last_position_check)` is valid; the cursor only lags, it never skips a position.)
+    The fuel bound is part of the statement: `len + 2` calls always reach the end. -/
+theorem dna_stream (seq : List UInt8) (k : Nat) (seed : UInt64) (force : Bool) (fuel : Nat)
+    (hk : 1 ≤ k) (hfuel : seq.length + 2 ≤ fuel) :
+    run (St.new seq k force false .dna seed) fuel
+      = (Kmers.dnaStream k seed force seq).map toItem := by
+  rw [new_dna, Kmers.dnaStream, windows_eq_range' k (by omega)]
+  have hu : seq.map Kmers.upper = seq.map upper :=
+    List.map_congr_left (fun b _ => (Tables.upper_eq b).symm)
+  rw [hu]
+  exact run_dna (seq.map upper) k seed force _ 0 false 0 fuel (by simp) (by simp; omega)
+    (fun j _ hj => by omega)
+example : run (St.new [97, 67, 78, 84] 2 true false .dna 42) 6
+    = (Kmers.dnaStream 2 42 true [97, 67, 78, 84]).map toItem :=
+  dna_stream _ 2 42 true 6 (by decide) (by decide)
+
+/-- termination (DNA): more fuel than `len + 2` changes nothing — the iterator has returned `None`
+    (or an error) by then -/
+theorem dna_terminates (seq : List UInt8) (k : Nat) (seed : UInt64) (force : Bool) (fuel : Nat)
+    (hk : 1 ≤ k) (hfuel : seq.length + 2 ≤ fuel) :
+    run (St.new seq k force false .dna seed) fuel
+      = run (St.new seq k force false .dna seed) (seq.length + 2) := by
+  rw [dna_stream seq k seed force fuel hk hfuel, dna_stream seq k seed force _ hk (Nat.le_refl _)]
+example : run (St.new [65, 67] 1 false false .dna 0) 9 = run (St.new [65, 67] 1 false false .dna 0) 4 :=
+  dna_terminates _ 1 0 false 9 (by decide) (by decide)
+
+/-- T-nothing_else (DNA).  `add_sequence` hands the sketch exactly the specification's hashes, in
+    order, nothing else, none dropped — except that a k-mer whose hash is literally 0 is not added:
+    the value 0 doubles as the iterator's skip sentinel (`Ok(0) => continue`), so the statement is
+    about the non-zero hashes.  The call fails iff some window is invalid and `force` is off. -/
+theorem nothing_else_dna (seq : List UInt8) (k : Nat) (seed : UInt64) (force : Bool)
+    (hk : 1 ≤ k) :
+    fedHashes (run (St.new seq k force false .dna seed) (fuelFor seq))
+        = (Kmers.evHashes (Kmers.dnaStream k seed force seq)).filter (· != 0)
+    ∧ firstErr (run (St.new seq k force false .dna seed) (fuelFor seq))
+        = if Kmers.evOk (Kmers.dnaStream k seed force seq) then none else some .errDna := by
+  rw [dna_stream seq k seed force _ hk (by unfold fuelFor; omega)]
+  exact ⟨fedHashes_toItem _, firstErr_toItem _⟩
+example : firstErr (run (St.new [65, 78] 1 false false .dna 42) (fuelFor [65, 78]))
+    = if Kmers.evOk (Kmers.dnaStream 1 42 false [65, 78]) then none else some .errDna :=
+  (nothing_else_dna _ 1 42 false (by decide)).2
+
+/-- lexMin/revcomp core (a): `revcomp` is an involution on sequences over {A,C,G,T,N} -/
+theorem revcomp_involutive (w : List UInt8) (h : ∀ b ∈ w, isBaseN b = true) :
+    revcomp (revcomp w) = w := by
+  rw [Tables.revcomp_eq, Tables.revcomp_eq]; exact revcomp_revcomp w h
+example : revcomp (revcomp [65, 78, 71]) = [65, 78, 71] := revcomp_involutive _ (by decide)
+
+/-- lexMin/revcomp core (b): `min(kmer, krc)` is the same on both strands -/
+theorem canonical_symmetric (w : List UInt8) (h : ∀ b ∈ w, isBaseN b = true) :
+    lexMin (revcomp w) (revcomp (revcomp w)) = lexMin w (revcomp w) := lexMin_revcomp w h
+example : lexMin (revcomp [84, 84]) (revcomp (revcomp [84, 84])) = lexMin [84, 84] (revcomp [84, 84]) :=
+  canonical_symmetric _ (by decide)
+
+/-- T-dna_revcomp_invariant.  For an all-ACGT sequence the item stream of its reverse complement
+    (Rust `revcomp`) is the item stream of the sequence in reverse order … -/
+theorem dna_revcomp_stream (seq : List UInt8) (k : Nat) (seed : UInt64) (force : Bool) (fuel : Nat)
+    (hk : 1 ≤ k) (hfuel : seq.length + 2 ≤ fuel) (hacgt : ∀ b ∈ seq, valid b = true) :
+    run (St.new (revcomp seq) k force false .dna seed) fuel
+      = (run (St.new seq k force false .dna seed) fuel).reverse := by
+  have h' : ∀ b ∈ seq, Kmers.isACGT b = true := fun b hb => by rw [← Tables.valid_eq]; exact hacgt b hb
+  have hl : (revcomp seq).length = seq.length := by simp [revcomp]
+  rw [dna_stream _ k seed force fuel hk (by omega), dna_stream _ k seed force fuel hk hfuel,
+    Tables.revcomp_eq, dnaStream_revcomp k (by omega) seed force seq h', List.map_reverse]
+example : run (St.new (revcomp [65, 67, 67]) 2 false false .dna 42) 5
+    = (run (St.new [65, 67, 67] 2 false false .dna 42) 5).reverse :=
+  dna_revcomp_stream _ 2 42 false 5 (by decide) (by decide) (by decide)
+
+/-- … hence both strands give the sketch the same multiset of hashes -/
+theorem dna_revcomp_invariant (seq : List UInt8) (k : Nat) (seed : UInt64) (force : Bool)
+    (hk : 1 ≤ k) (hacgt : ∀ b ∈ seq, valid b = true) :
+    (fedHashes (run (St.new (revcomp seq) k force false .dna seed) (fuelFor (revcomp seq)))).Perm
+      (fedHashes (run (St.new seq k force false .dna seed) (fuelFor seq))) := by
+  have h' : ∀ b ∈ seq, Kmers.isACGT b = true := fun b hb => by rw [← Tables.valid_eq]; exact hacgt b hb
+  have hl : (revcomp seq).length = seq.length := by simp [revcomp]
+  rw [dna_stream _ k seed force _ hk (by unfold fuelFor; omega),
+    dna_stream _ k seed force _ hk (by unfold fuelFor; omega), fedHashes_toItem, fedHashes_toItem,
+    Tables.revcomp_eq, dnaStream_revcomp k (by omega) seed force seq h']
+  have hws : ∀ w ∈ Kmers.windows k (seq.map Kmers.upper), ∀ b ∈ w, Kmers.isACGT b = true := by
+    rw [map_upper_of_acgt seq h']
+    exact fun w hw b hb => h' b (windows_mem hw b hb)
+  rw [Kmers.dnaStream, dnaEvents_all_valid seed force _ hws]
+  have hh : ∀ l : List (List UInt8),
+      Kmers.evHashes (l.map (fun w => Kmers.Ev.hash (Murmur.hash64 (Kmers.canonical w) seed)))
+        = l.map (fun w => Murmur.hash64 (Kmers.canonical w) seed) := by
+    intro l; induction l with
+    | nil => rfl
+    | cons a t ih => simp [Kmers.evHashes, ih]
+  rw [← List.map_reverse, hh, hh, List.map_reverse, List.filter_reverse]
+  exact List.reverse_perm _
+example : (fedHashes (run (St.new (revcomp [65, 67, 67]) 2 false false .dna 42) (fuelFor (revcomp [65, 67, 67])))).Perm
+    (fedHashes (run (St.new [65, 67, 67] 2 false false .dna 42) (fuelFor [65, 67, 67]))) :=
+  dna_revcomp_invariant _ 2 42 false (by decide) (by decide)
 
 end Sourmash.C02
